@@ -14,6 +14,12 @@ import sys
 
 def main():
     job = json.loads(open(sys.argv[1]).read())
+    try:  # UFL's geometry lowering can allocate tens of GB on pathological expressions: fail with MemoryError instead
+        import resource
+
+        resource.setrlimit(resource.RLIMIT_AS, (8 * 2**30, resource.RLIM_INFINITY))
+    except (ImportError, OSError, ValueError):
+        pass
     import basix.ufl
     import numpy as np
     import ufl
